@@ -164,15 +164,15 @@ CHECKS = {
         pkg="props/c18", level="fault_enumeration",
         technique="enumeration of mechanism x advertised handshake versions x entry point x failing step against a hand-written PLAIN/SCRAM reference server, plus property-based testing (rapid) of credentials on top",
         level_text=("The product {PLAIN, SCRAM-SHA-256, SCRAM-SHA-512} x {broker advertises SaslHandshake v0 only (raw tokens), v0-v1 (framed SaslAuthenticate)} x "
-                    "{Dialer.DialContext+ReadPartitions, Dialer.DialLeader+ReadOffsets, Transport via Client.ListOffsets, Transport via Writer.WriteMessages} x 17 outcomes "
+                    "{Dialer.DialContext+ReadPartitions, Dialer.DialLeader+ReadOffsets, Transport via Client.ListOffsets, Transport via Writer.WriteMessages, NewWriter(WriterConfig.Dialer), Reader.SetOffsetAt, a consumer-group Reader until it has fetched its offsets (the last two with kafka.DefaultDialer routed to the same broker, so that traffic bypassing the configured Dialer is seen)} x 19 outcomes "
                     "(none; unsupported mechanism, handshake error code, close at handshake; wrong password, unknown user (late/early), close or error code at authenticate round 1/2; "
-                    "malformed server-first, nonce not extending the client's, low iteration count, wrong server signature, malformed server-final, in-band e= server-final) is enumerated completely (316 points) "
+                    "malformed or empty server-first, nonce not extending the client's, low iteration count, wrong server signature, malformed or empty server-final, in-band e= server-final) is enumerated completely "
                     "against the fake broker's own RFC 4616 / RFC 5802 server; rapid adds generated user names and passwords (printable ASCII with ',' '=' and escape look-alikes, RFC 4013 cases with known prepared form). "
                     "Per connection the broker journal decides: only ApiVersions/SaslHandshake/SaslAuthenticate (or raw tokens) before the broker's verdict ok, nothing after a failed step, "
                     "the call returns an error and the client closes every connection, framing follows the handshake version, the exchange completes iff credentials are right and the server signature verifies, "
                     "and the real request after a completed exchange is answered from the model."),
         level_note=("faults apply to every connection of a case alike; stalls (no response) are not injected because Conn has no deadline during the dial-time exchange; "
-                    "refusing a low PBKDF2 iteration count is the SCRAM client library's policy and is only observed; Reader/ConsumerGroup are covered through the Dialer they use"),
+                    "refusing a low PBKDF2 iteration count is the SCRAM client library's policy and is only observed; a ConsumerGroup built directly is covered through the Dialer it uses"),
         rule=("case = (mechanism, advertised SaslHandshake and SaslAuthenticate versions, entry point, fault, error code, user, password, wrong password, decoy accounts, iterations, partition range); "
               "non-trivial = a completed exchange followed by a real request answered from the model, or a failure at an authenticate round (step >= 1); handshake-level failures count as evaluated only. "
               "Distinct by the whole case value."),
